@@ -125,6 +125,10 @@ def is_str_eq(c):
         return True
     if ("alloc::string::String as core::cmp::PartialEq" in n or "<str as core::cmp::PartialEq" in n) and n.endswith(("::eq", "::ne")):
         return True
+    # membership / prefix tests are byte-wise comparisons too (`NAMES.contains(&t.text.as_str())`, `text.starts_with("..")`)
+    if n.split("::")[-1] in ("contains", "starts_with", "ends_with", "binary_search", "contains_key", "strip_prefix", "strip_suffix") and "str" in ga \
+            and re.search(r"slice|core::str|alloc::str|HashSet|BTreeSet|HashMap|BTreeMap", n):
+        return True
     return False
 
 
